@@ -264,7 +264,7 @@ pub fn run(rep: &mut Report) {
     let table = Arc::new(slot_keys());
     let n: u64 = if thorough { 600 } else { 32 };
     crate::c02::run_sharded(rep, n, 16, move |local, sub, rt| {
-        rt.block_on(run_scripted(local, sub, table.clone()));
+        crate::run_guarded!(rt, local, "C19", sub, 20_000_000u64, run_scripted(local, sub, table.clone()));
     });
     // part 2
     let mut part2 = Report::new("C19", &rep.tier.clone(), rep.seed);
